@@ -1,23 +1,28 @@
 """C14 -- a reused Interpreter behaves like a fresh one.
 
-spec/Reuse.tla (state groups vars / per-run / rand; Run = transcription of the 24-mode AWK program in
+spec/Reuse.tla (state groups vars / per-run / rand; Run = transcription of the 38-mode AWK program in
 harness/c14/program.go; ExecSpec = the statement, ExecCode(Clears) = newexecute.go), MC_Reuse (ExecCode refines
 ExecSpec; fresh-after-reset; only vars carry over -- to a fixpoint), Gen_Reuse (all histories of <= MaxRuns runs with
-reset variants, exported with the predicted output; four families: the 16 original kinds; standard input through
+reset variants, exported with the predicted output; eight families: the 16 original kinds; standard input through
 every reading path with an input of its own per run; exit N outside END followed by a failing END; Execute /
-ExecuteContext with contexts that are done after the call returned), Trace_Reuse (random longer histories recorded
-from one real Interpreter, every run validated by TLC; rejected histories are re-run through the replayer).
+ExecuteContext with contexts that are done after the call returned; the range pattern opened and the run ended in
+every way; rand / srand in every order with every reset variant before any run; per-run Args / Argv0 / Environ and
+programs that write ARGV / ENVIRON; Chars and the sandbox flags switched per run), Trace_Reuse (random longer
+histories recorded from one real Interpreter, every run validated by TLC; rejected histories are re-run through the
+replayer).
 """
 import copy, json, os
 from vlib import MachineryError
 
 ALL_KINDS = ('{"plain", "setglob", "setfs", "csvhdr", "setmodes", "openout", "exit3", "errfunc", "errforin", "cancel", '
              '"rand", "srand5", "midfile", "match", "p_io", "p_func", "gl_plain", "gl_dash", "gl_dashvar", '
-             '"exit_enderr", "exitbegin", "exit_endcancel", "sys", "pipe"}')
+             '"exit_enderr", "exitbegin", "exit_endcancel", "sys", "pipe", "nr_plain", "sr_first", "sr_only", "sr_time", '
+             '"av_write", "av_del", "rg_close", "rg_eof", "rg_exit", "rg_err", "rg_cancel", "rg_next", "rg_nextfile", "rg_getline"}')
 OLD_KINDS = ('{"plain", "setglob", "setfs", "csvhdr", "setmodes", "openout", "exit3", "errfunc", "errforin", "cancel", '
              '"rand", "srand5", "midfile", "match", "p_io", "p_func"}')
-ALL_CFGS = '{"c0", "c1", "c2", "c3", "c4"}'
-CORE = ["scanner", "ins", "outs", "sp", "record", "match", "status", "hdr", "argc", "dash", "ctx"]
+ALL_CFGS = '{"c0", "c1", "c2", "c3", "c4", "c5", "c6", "c7"}'
+CORE = ["scanner", "ins", "outs", "sp", "record", "match", "status", "hdr", "argc", "dash", "ctx", "range"]
+FAMS = ('reuse', 'stdin', 'exit', 'ctx', 'range', 'rand', 'args', 'flags')
 # The quick model run: 16 kinds that between them touch every component of the per-run state, and the three
 # configurations that differ in what they set (c3 / c4 differ from c0 only in how the call is made; c1 already is an
 # ExecuteContext whose context is done after the call).
@@ -25,7 +30,17 @@ MC_QUICK = {'MaxDraws': 1, 'McTags': '{1}', 'McCfgs': '{"c0", "c1", "c2"}',
             'McKinds': '{"plain", "setglob", "setfs", "csvhdr", "openout", "exit3", "errfunc", "cancel", "midfile", "p_io", '
                        '"p_func", "gl_dash", "gl_dashvar", "exit_enderr", "exit_endcancel", "sys"}',
             'JudgeKinds': '{"plain", "p_io", "gl_dash"}', 'JudgeCfgs': '{"c0", "c1"}'}
-MC_THOROUGH = {'MaxDraws': 1, 'McTags': '{1}', 'McCfgs': '{"c0", "c1", "c2", "c3"}', 'McKinds': ALL_KINDS,
+# The second quick model run: the kinds of state the second extension added (the range pattern, the generator seeded
+# and drawn from in different orders, ARGV / ENVIRON written and deleted, sandbox flags), with the configurations that
+# differ in Args / Environ / flags.
+MC_QUICK_NEW = {'MaxDraws': 2, 'McTags': '{1}', 'McCfgs': '{"c0", "c1", "c5", "c7"}',
+                'McKinds': '{"plain", "exit3", "rg_close", "rg_exit", "rg_eof", "rg_err", "rg_cancel", "rg_getline", "sr_first", '
+                           '"sr_only", "nr_plain", "srand5", "av_write", "av_del", "sys", "midfile"}',
+                'JudgeKinds': '{"plain", "sr_first", "av_del"}', 'JudgeCfgs': '{"c0", "c5"}'}
+OLD24_KINDS = ('{"plain", "setglob", "setfs", "csvhdr", "setmodes", "openout", "exit3", "errfunc", "errforin", "cancel", '
+               '"rand", "srand5", "midfile", "match", "p_io", "p_func", "gl_plain", "gl_dash", "gl_dashvar", '
+               '"exit_enderr", "exitbegin", "exit_endcancel", "sys", "pipe"}')
+MC_THOROUGH = {'MaxDraws': 1, 'McTags': '{1}', 'McCfgs': '{"c0", "c1", "c2", "c3"}', 'McKinds': OLD24_KINDS,
                'JudgeKinds': '{"plain", "p_io", "p_func", "csvhdr", "midfile", "gl_dash", "gl_dashvar", "sys"}',
                'JudgeCfgs': '{"c0", "c1", "c2"}'}
 # a second thorough model run: the new kinds only, every configuration, two different inputs per configuration
@@ -33,12 +48,24 @@ MC_THOROUGH_NEW = {'MaxDraws': 1, 'McTags': '{1, 2}', 'McCfgs': '{"c0", "c1", "c
                    'McKinds': '{"plain", "p_func", "errfunc", "cancel", "gl_plain", "gl_dash", "gl_dashvar", "exit_enderr", '
                               '"exitbegin", "exit_endcancel", "sys", "pipe"}',
                    'JudgeKinds': '{"plain", "p_func", "gl_dash", "gl_dashvar", "sys", "pipe"}', 'JudgeCfgs': '{"c0", "c1", "c4"}'}
+# two more thorough model runs for the kinds of the second extension: (a) the range pattern and the generator, two
+# different inputs per configuration; (b) ARGV / ENVIRON / FIELDS and the per-run flags, every configuration that
+# differs in Args / Environ / flags
+MC_THOROUGH_R2A = {'MaxDraws': 3, 'McTags': '{1, 2}', 'McCfgs': '{"c0", "c1", "c2"}',
+                   'McKinds': '{"plain", "exit3", "rand", "srand5", "nr_plain", "sr_first", "sr_only", "sr_time", "rg_close", "rg_eof", '
+                              '"rg_exit", "rg_err", "rg_cancel", "rg_next", "rg_nextfile", "rg_getline"}',
+                   'JudgeKinds': '{"plain", "sr_first", "srand5", "rg_close"}', 'JudgeCfgs': '{"c0", "c1", "c2"}'}
+MC_THOROUGH_R2B = {'MaxDraws': 1, 'McTags': '{1}', 'McCfgs': '{"c0", "c1", "c5", "c6", "c7"}',
+                   'McKinds': '{"plain", "setglob", "exit3", "csvhdr", "av_write", "av_del", "sys", "midfile", "p_io", "openout"}',
+                   'JudgeKinds': '{"plain", "av_del", "p_io", "sys"}', 'JudgeCfgs': '{"c0", "c5", "c6", "c7"}'}
 COMMAND_KINDS = ('sys', 'pipe')
 
 GROUPS = {}
 for g, ks in {'globals': 'g ak', 'specials': 'FS RS OFS ORS CONVFMT OFMT SUBSEP cv ss',
               'record': 'NR FNR NF line FILENAME rec endNR', 'match': 'RSTART RLENGTH rstart', 'inputmode': 'INPUTMODE',
-              'outputmode': 'OUTPUTMODE', 'rand': 'rand', 'outstreams': 'wclose wline',
+              'outputmode': 'OUTPUTMODE pl', 'rand': 'rand rnd sr', 'outstreams': 'wclose wline', 'rt': 'RT',
+              'range': 'rg nx rgl', 'argv': 'ARGC argvc argv argvx argvw', 'environ': 'env envw', 'fields-array': 'FIELDS',
+              'chars-flag': 'chars',
               'instreams': 'midret mid rret rline', 'header': 'x', 'frames': 'fact forin boom loop sum',
               'stdin': 'gl gd gvr gv', 'command': 'sysrc pipe'}.items():
     for k in ks.split():
@@ -55,12 +82,13 @@ def corrupt(case, rnd):
     if any(r['kind'] == 'p_io' for r in case['runs'][:-1]):
         return None   # may be skipped by the replayer (a known finding can make an earlier run deviate): not a usable sample
     c = copy.deepcopy(case)
-    eq = [ch for ch in c['out'] if ch['cmp'] == 'eq']
+    eq = [ch for ch in c['out'] if ch['cmp'] in ('eq', 'rnd')]
     if not eq or rnd.random() < 0.25:
         c['runs'][-1]['status'] += 1
     else:
         ch = rnd.choice(eq)
-        ch['v'] = ch['v'] + [122]
+        # (a draw is named "seed:idx": one more digit names another draw, or none)
+        ch['v'] = ch['v'] + [57 if ch['cmp'] == 'rnd' else 122]
     return c
 
 
@@ -184,27 +212,48 @@ def gate_fresh_model(ctx):
 
 def run(ctx):
     q = ctx.quick
-    ctx.rule = ('a case is one history of Execute/ExecuteContext calls on ONE interp.New(program) -- each run one of 24 '
+    ctx.rule = ('a case is one history of Execute/ExecuteContext calls on ONE interp.New(program) -- each run one of 38 '
                 'kinds (plain, sets globals/array, sets FS RS OFS ORS CONVFMT OFMT SUBSEP, CSV header, sets INPUTMODE/'
                 'OUTPUTMODE, leaves an output stream open, exit 3, error in a function in a loop, error in for-in, '
-                'cancelled mid-function, rand(), srand(5), getline<file to mid-file, match(), I/O probe, function probe; '
-                'reads all standard input with plain getline / with getline < "-", reads one record with getline var < "-" '
-                'leaving the scanner mid-stream; exit 4 in a rule or exit 6 in BEGIN followed by a run-time error in END, '
-                'exit 5 followed by a cancellation in END; system("exit 3"), "echo hi" | getline) x 5 configurations (zero '
-                'Config + Execute / Vars FS + OutputMode + file operand + ExecuteContext whose context is cancelled when the '
-                'call has returned / InputMode csv header / ExecuteContext whose context expires when the call has returned '
-                '/ ExecuteContext(Background)), every run with a standard input of its own, with ResetVars/ResetRand '
-                'variants -- exported by TLC from Gen_Reuse (families reuse, stdin, exit, ctx) with the predicted output, '
-                'status and error class, or one 5-12 operation random history recorded from the real interpreter; '
-                'distinct by content; non-trivial when the judged run executes on an interpreter that already ran')
+                'cancelled mid-function, rand() x3, rand() srand(5) rand(), getline<file to mid-file, match(), I/O probe, '
+                'function probe; reads all standard input with plain getline / with getline < "-", reads one record with '
+                'getline var < "-" leaving the scanner mid-stream; exit 4 in a rule or exit 6 in BEGIN followed by a run-time '
+                'error in END, exit 5 followed by a cancellation in END; system("exit 3"), "echo hi" | getline; never rand(), '
+                'srand(7) before the first rand(), srand(9) only, srand() from the clock; writes ARGV[5] and ENVIRON["token"], '
+                'deletes ARGV[2] and ENVIRON["home"]; opens the range pattern and closes it / leaves it open to the end of '
+                'input / nextfile / getline in the body / next / exit 3 / run-time error / cancellation inside the range) x 8 '
+                'configurations (zero Config + Execute / Vars FS + OutputMode + file operand + ExecuteContext whose context is '
+                'cancelled when the call has returned / InputMode csv header / ExecuteContext whose context expires when the '
+                'call has returned / ExecuteContext(Background) / Argv0 + three assignment operands + Environ home lang / one '
+                'operand + Environ user + Chars / NoExec NoFileWrites NoFileReads NoArgVars), every run with a standard input '
+                'of its own, with ResetVars/ResetRand variants -- exported by TLC from Gen_Reuse (families reuse, stdin, exit, '
+                'ctx, range, rand, args, flags) with the predicted output, status and error class, or one 5-12 operation '
+                'random history recorded from the real interpreter; distinct by content; non-trivial when the judged run '
+                'executes on an interpreter that already ran')
     ctx.assumptions += [
-        'one AWK program with 24 modes (an Interpreter is tied to one program); every mode prints a fingerprint of all '
+        'one AWK program with 38 modes (an Interpreter is tied to one program); every mode prints a fingerprint of all '
         'state visible in BEGIN (globals, array element, FS..SUBSEP, CONVFMT/OFMT effects, NR FNR NF $0 FILENAME RSTART '
-        'RLENGTH INPUTMODE OUTPUTMODE, rand(), a print line) before doing what its kind says',
-        'rand(): the statement fixes it only after ResetRand (equal to the first rand() of a new interpreter); when the '
-        'generator was used and not reset the value is not judged',
-        'the arrays FIELDS, ARGV and ENVIRON (program-visible arrays that Execute fills) are not observed: the statement '
-        'lets arrays carry over without ResetVars and does not say whether these are "header names"/"configuration"',
+        'RLENGTH RT INPUTMODE OUTPUTMODE, length of a two-byte character, ARGC, ARGV below ARGC, ARGV and ENVIRON and '
+        'FIELDS enumerated completely with for-in in key order, ARGV[ARGC], ARGV[ARGC+1], rand(), a print line) before '
+        'doing what its kind says',
+        'rand(): every value the program draws is compared with the draw of a NEW interpreter (interp.ExecProgram) that the '
+        'specification names by seed and position -- as documented for Execute and ResetRand the sequence continues from '
+        'run to run, restarts as on a new interpreter after ResetRand and with the given seed after srand(n); srand() '
+        'returns the previous seed; after srand() without argument (time of day) nothing about rand()/srand() is judged '
+        'until the next srand(n) or ResetRand; the comparison "same run on a new interpreter" is not made for that kind',
+        'ARGV and ENVIRON are arrays: after ResetVars they hold exactly what the run\'s own Config assigns (judged by a '
+        'complete enumeration, by ARGV[ARGC..ARGC+1], and by enumerating again after the program wrote or deleted '
+        'elements). WITHOUT ResetVars the statement does not say whether elements of an earlier run that the new Config '
+        'does not assign survive (arrays carry over; configuration does not): the complete enumerations are then judged '
+        'only when no such element exists, the elements below ARGC always. FIELDS and RT: judged to be empty in BEGIN '
+        'unless a run since the last ResetVars read a CSV header / read the main input (whether they are "header names" / '
+        '"record state" or variables the statement does not say)',
+        'range pattern: one range rule, started only by the rg_* kinds and evaluated by every kind; whether it is open '
+        'belongs to one pass over the input',
+        'Config.Chars, NoExec, NoFileWrites, NoFileReads, NoArgVars are switched on and off between runs (c6, c7); a '
+        '`var=value` operand that names a program variable (c5: g=G5) must be carried out in the run after a NoArgVars run. '
+        'NOT varied between runs: NewlineOutput, ShellCommand, OpenFile, Error, CSV separators/comment characters '
+        '(setExecuteConfig assigns each of them unconditionally)',
         'error texts are not compared, only the class none / error / context.Canceled / context.DeadlineExceeded; text '
         'written to Config.Error is not compared',
         'a disagreement in the first run of a history (new interpreter) is reported as a machinery error, not as a verdict',
@@ -228,23 +277,31 @@ def run(ctx):
     else:
         mc = ctx.cfg('MC_Reuse', constants=MC_QUICK if q else MC_THOROUGH)
         ctx.tlc('MC_Reuse', mc, timeout=2400, heap='4g')
+        if q:
+            mc2 = ctx.cfg('MC_Reuse', name='MC_Reuse_quick_new', constants=MC_QUICK_NEW)
+            ctx.tlc('MC_Reuse', mc2, timeout=2400, heap='4g')
         if not q:
             mc2 = ctx.cfg('MC_Reuse', name='MC_Reuse_new', constants=MC_THOROUGH_NEW)
             ctx.tlc('MC_Reuse', mc2, timeout=2400, heap='4g')
+            for nm, consts in (('r2a', MC_THOROUGH_R2A), ('r2b', MC_THOROUGH_R2B)):
+                mc3 = ctx.cfg('MC_Reuse', name=f'MC_Reuse_{nm}', constants=consts)
+                ctx.tlc('MC_Reuse', mc3, timeout=2400, heap='4g')
             # The model must be able to fail, and must agree with the code on which clears of resetCore matter:
             # without clearing the header names (finding F11, since fixed), the exit status, the output streams, the
-            # scanners map (getline < "-") or the context of an earlier call TLC violates an invariant; clearing the
-            # stack pointer is redundant (nested calls restore it).
+            # scanners map (getline < "-"), the context of an earlier call or the flags of the range patterns (a local of
+            # execActions) TLC violates an invariant; clearing the stack pointer is redundant (nested calls restore it).
             verdicts = {}
-            for f in ('hdr', 'status', 'outs', 'dash', 'ctx', 'sp'):
-                c = ctx.cfg('MC_Reuse', name=f'MC_Reuse_no_{f}', constants=dict(MC_QUICK, Clears=tla_set([x for x in CORE if x != f])))
+            for f in ('hdr', 'status', 'outs', 'dash', 'ctx', 'range', 'sp'):
+                base = MC_QUICK_NEW if f == 'range' else MC_QUICK
+                c = ctx.cfg('MC_Reuse', name=f'MC_Reuse_no_{f}', constants=dict(base, Clears=tla_set([x for x in CORE if x != f])))
                 r = ctx.tlc('MC_Reuse', c, timeout=900, heap='4g', allow_fail=True, label=f'MC_Reuse without clearing {f}')
                 if r['rc'] == 124:
                     raise MachineryError('TLC timed out on the load-bearing analysis')
                 verdicts[f] = not r['ok']
-            ctx.notes.append('resetCore clears in the model: without "hdr", "status", "outs", "dash" (the scanners map) or "ctx" '
-                             '(switching context checking off) TLC violates an invariant; without "sp" it does not (redundant): ' + str(verdicts))
-            if not all(verdicts[f] for f in ('hdr', 'status', 'outs', 'dash', 'ctx')) or verdicts['sp']:
+            ctx.notes.append('resetCore clears in the model: without "hdr", "status", "outs", "dash" (the scanners map), "ctx" '
+                             '(switching context checking off) or "range" (range flags new for every pass over the input) TLC '
+                             'violates an invariant; without "sp" it does not (redundant): ' + str(verdicts))
+            if not all(verdicts[f] for f in ('hdr', 'status', 'outs', 'dash', 'ctx', 'range')) or verdicts['sp']:
                 raise MachineryError('model lost its teeth (or gained false ones): ' + str(verdicts))
     # 2. spec -> code
     if q:
@@ -257,8 +314,9 @@ def run(ctx):
         sim = ctx.cfg('Gen_Reuse', name='Gen_Reuse_sim', constants={'Fams': '{"reuse"}', 'MaxRuns': 6, 'RunKinds': ALL_KINDS, 'RunCfgs': ALL_CFGS,
                                                                      'LastKinds': ALL_KINDS, 'LastCfgs': ALL_CFGS, 'ResetsAnywhere': 'TRUE'})
         # in simulation mode TLC evaluates (and so exports) every successor of every state on a walk: one walk of
-        # 6 runs yields ~2000 histories (each prefix of the walk extended by every possible next run)
-        ctx.tlc('Gen_Reuse', sim, capture='cases.ndjson', simulate=20, depth=7, workers=1, timeout=1200)
+        # 6 runs yields ~7000 histories (each prefix of the walk extended by every possible next run: 38 kinds x 8
+        # configurations x 4 reset variants)
+        ctx.tlc('Gen_Reuse', sim, capture='cases.ndjson', simulate=10, depth=7, workers=1, timeout=1800)
     ctx.cov['exhaustive'] = True
     ctx.replay('cases.ndjson', label='gen-reuse', min_cases=1000, selftest=False)
     gate_fresh_model(ctx)
@@ -269,10 +327,10 @@ def run(ctx):
         k = json.loads(line)['fam']
         fams[k] = fams.get(k, 0) + 1
     ctx.cov['families'] = fams
-    if not all(fams.get(k) for k in ('reuse', 'stdin', 'exit', 'ctx')):
+    if not all(fams.get(k) for k in FAMS):
         raise MachineryError(f'Gen_Reuse exported no case for some family: {fams}')
     # the binding demonstration once more for each new family alone
-    for fam in ('stdin', 'exit', 'ctx'):
+    for fam in FAMS[1:]:
         ff = ctx.path(f'cases_{fam}.ndjson')
         with open(ff, 'w') as f:
             for line in open(ctx.path('cases.ndjson')):
